@@ -307,6 +307,26 @@ structure HEnv (σ ρ η κ : Type) where
   onError : σ → κ → σ × κ × Option Panic
   onPanic : σ → κ → σ × κ × Option Panic
 
+/-- the renderers of pkg/render that the context helpers construct -/
+inductive RKind
+  | json
+  | jsonp (callback : Bytes)
+  | xml (indent : Bytes)
+  deriving DecidableEq, Repr
+
+/-- what a response helper of context_render.go does, call by call -/
+inductive REv
+  | setStatus (c : Int)                 -- c.SetStatus(c)
+  | wh (c : Int)                        -- c.Resp.WriteHeader(c)
+  | setHeader (k v : Bytes)             -- c.Resp.Header().Set(k, v)
+  | writeBytes (b : Bytes)              -- c.WriteBytes(b)
+  | render (k : RKind)                  -- renderer.Render(c.Resp, obj)
+  | addError                            -- c.AddError(err)
+  | copy                                -- io.Copy(c.Resp, r)
+  | httpError (msg : Bytes) (code : Int)
+  | redirect (url : Bytes) (code : Int)
+  deriving DecidableEq, Repr
+
 /-- calls received by an `http.ResponseWriter` below pkg/render -/
 inductive HEv
   | write (b : Bytes)
